@@ -121,8 +121,9 @@ PROPS = {
         verus=["cmaprange"],
         standins=["cmap"],
         kani=[K(f"c26_increment_be_{n}", "text/cmap.rs", "increment_be") for n in (1, 2, 3, 4)] +
-             [K(f"c26_calculate_offset_{n}", "text/cmap.rs", "calculate_offset") for n in (1, 2, 3, 4)],
-        not_decided="CMap tokenizer/parser, bfrange array form, code-space rejection and the ToUnicode builder are covered only by the bounded stand-in cmap; the range-membership test of CMap::map (slice comparison) has no contract",
+             [K(f"c26_calculate_offset_{n}", "text/cmap.rs", "calculate_offset") for n in (1, 2, 3, 4)] +
+             [K(f"c26_contains_{n}", "text/cmap.rs", "CodeRange::contains") for n in (1, 2, 3, 4)],
+        not_decided="CMap tokenizer/parser, bfrange array form, code-space rejection and the ToUnicode builder are covered only by the bounded stand-in cmap; CodeRange::contains is proved numeric for 1..4-byte codes (Kani); the inline range-membership test of CMap::map (the same slice comparison) has no contract of its own",
     ),
     "C07": dict(
         verus=["runlength", "pngrows", "predictor", "bounded", "asciihex", "ascii85", "chainorder"],
